@@ -174,6 +174,8 @@ def brk_parse(rng: Rng, text: str) -> str:
 
 
 def brk_tmpl_undefined(rng: Rng, text: str) -> str:
+    # NOTE: every file uses the same variable name on purpose (state kept per *name* by a templater
+    # or linter that outlives one file shows up when a second file mentions the name again)
     if rng.chance(0.4):
         # renders to nothing in a place where the statement is then unparsable too
         return text.rstrip("\n") + "\n;\n\nSELECT {{ undefined_vsim_var }} AS x\nFROM tbl\n"
@@ -398,6 +400,16 @@ def gen_fix_world(rng: Rng, feats: Optional[dict] = None) -> dict:
     files["proj/.sqlfluff"] = {"b64": b64(ini(cfg_sections)), "mode": 0o644}
     nested: dict[str, dict] = {}
     f.setdefault("bait", 0.0)
+    f.setdefault("jinja_loader", 0.0)
+    loader = bool(f["jinja_loader"]) and templater == "jinja" and rng.chance(f["jinja_loader"])
+    if loader:
+        # macros loaded from a directory + templates pulled in through the Jinja loader
+        # ({% include %} / {% import %}): the templater reads OTHER files of the project
+        cfg_sections["sqlfluff:templater:jinja"] = {"load_macros_from_path": "_macros", "loader_search_path": "_partials"}
+        files["proj/.sqlfluff"] = {"b64": b64(ini(cfg_sections)), "mode": 0o644}
+        files["proj/_macros/m.sql"] = {"b64": b64(b"{% macro vsim_col(name) %}{{ name }} AS {{ name }}_alias{% endmacro %}\n"), "mode": 0o644}
+        files["proj/_partials/part.sql"] = {"b64": b64(b"a AS part_col"), "mode": 0o644}
+        files["proj/_partials/lib.sql"] = {"b64": b64(b"{% macro lib_tbl() %}tbl{% endmacro %}\n"), "mode": 0o644}
     if f["nested_cfg"]:
         for d in dirs[1:]:
             if rng.chance(0.5):
@@ -412,7 +424,7 @@ def gen_fix_world(rng: Rng, feats: Optional[dict] = None) -> dict:
                     sec["max_line_length"] = rng.choice([30, 50, 200])
                 if rng.chance(0.15):
                     sec["ignore_templated_areas"] = "False"
-                if limits and rng.chance(0.5):
+                if limits and rng.chance(0.7):
                     sec.update(limits.get("nested", {}))
                 if sec:
                     nested[d] = sec
@@ -426,6 +438,15 @@ def gen_fix_world(rng: Rng, feats: Optional[dict] = None) -> dict:
         if templater != "jinja" and kind in ("tmpl_undef", "tmpl_fatal", "jinja_fixable"):
             kind = "fixable"
         text, m = make_body(rng, kind, templater)
+        if loader and kind in ("clean", "fixable", "jinja_fixable") and rng.chance(0.8):
+            use = rng.choice(["macro", "include", "import"])
+            m["loader"] = use
+            if use == "macro":
+                text = text.rstrip("\n") + "\n;\n\nSELECT {{ vsim_col('b') }}\nFROM tbl\n"
+            elif use == "include":
+                text = text.rstrip("\n") + "\n;\n\nSELECT {% include 'part.sql' %}\nFROM tbl\n"
+            else:
+                text = "{% from 'lib.sql' import lib_tbl %}\n" + text.rstrip("\n") + "\n;\n\nSELECT a\nFROM {{ lib_tbl() }}\n"
         if f["inline"] and kind in ("clean", "fixable", "unfixable", "cte_multi") and rng.chance(f["inline"]):
             text = add_inline(rng, text, m)
         enc = rng.choice(f["encodings"])
@@ -474,7 +495,7 @@ def gen_fix_world(rng: Rng, feats: Optional[dict] = None) -> dict:
         meta[victim]["ignored"] = True
     return {
         "files": files,
-        "dirs": ["home/u", "proj"] + ["proj/" + d for d in dirs[1:]],
+        "dirs": ["home/u", "proj"] + ["proj/" + d for d in dirs[1:]] + (["proj/_macros", "proj/_partials"] if loader else []),
         "cwd": "proj",
         "meta": meta,
         "cfg": {
@@ -500,7 +521,9 @@ def gen_limits(rng: Rng) -> dict:
     else:
         out["root"]["large_file_skip_byte_limit"] = 0
     if mode in ("char", "both"):
-        out["root"]["large_file_skip_char_limit"] = rng.choice([60, 120, 200, 400])
+        out["root"]["large_file_skip_char_limit"] = rng.choice([60, 120, 200, 400, 0])
+        # the char limit, too, is a per-file setting: a nested config may lower, raise or disable it
+        out["nested"]["large_file_skip_char_limit"] = rng.choice([0, 50, 150, 1000])
     if rng.chance(0.5):
         out["root"]["large_file_skip_fail"] = rng.choice(["True", "False"])
     return out
